@@ -213,6 +213,8 @@ def judge_future(case, off=None):
             uni[e["add"]["id"]] = e["add"]
     T = case[0]["T"]
     stored = set(case[0]["stored"])
+    cap = case[0]["cap"]
+    cache_before = []          # the cache as logged by the previous push / round (what the spec's PushBlock starts from)
     release = None
     for i, e in enumerate(case):
         if e["e"] == "Release":
@@ -230,8 +232,12 @@ def judge_future(case, off=None):
             if e["out"] in ("cached", "dropped") and ready and b["ts"] <= e["lo"] + T:
                 return False, ("block %s (%s) is importable (timestamp %d <= clock %d + interval %d, parent stored) but was %s"
                                % (e["id"], e.get("note"), b["ts"], e["lo"], T, e["out"]))
-            if e["out"] == "dropped" and ready and b["ts"] > e["hi"] + T:
-                return False, "block %s (%s) is ahead of the clock and was dropped instead of cached" % (e["id"], e.get("note"))
+            # ahead of the clock whatever the clock was in [lo, hi]: it has to go into the cache - unless the cache was full:
+            # RandCache then throws out ONE entry at random, possibly the new one itself (PushBlock(id, ev) with ev = id)
+            if e["out"] == "dropped" and ready and b["ts"] > e["hi"] + T and len(cache_before) < cap:
+                return False, ("block %s (%s) is ahead of the clock and was dropped instead of cached (cache held %d of %d)"
+                               % (e["id"], e.get("note"), len(cache_before), cap))
+            cache_before = e["cache"]
         if e["e"] == "Round":
             now_stored = set(e["stored"])
             for x in now_stored:
@@ -245,6 +251,7 @@ def judge_future(case, off=None):
                     return False, ("a retry round imported part of a cached chain and left %s in the cache although it was importable "
                                    "(timestamp <= clock %d + interval, parent stored): the round does not visit parents before children" % (left, release))
             stored = now_stored
+            cache_before = e["cache"]
     return True, "stored blocks and decisions consistent with timestamps; bookkeeping differs from FutureBlocks.tla"
 
 
